@@ -181,14 +181,15 @@ def modes_run(mode: str, k: int, b1: bool, b3: bool, b5: bool) -> Tuple[List[int
 @ob(
     "C15",
     "O3-print-mode",
-    post="_ == ((0 if nodefault else 1), 1, 6)",
-    bound="print-mode no-default vs default (symbolic): the standard-out printer is removed, a user-added printer stays and "
-    "receives every print",
+    post="_ == ((0 if nodefault else 1), 1, 6, 1)",
+    bound="print-mode no-default vs default (symbolic): the standard-out printer is removed; a user-added printer and a LogPrinter "
+    "(a subclass of the standard-out printer) stay and receive every print",
     encodes=["csvpath/modes/print_mode.py:PrintMode.update_printers", "csvpath/csvpath.py:CsvPath.print"],
     tiers={"quick": {"timeout": 300}},
 )
-def print_mode(nodefault: bool) -> Tuple[int, int, int]:
-    from csvpath.util.printer import StdOutPrinter
+def print_mode(nodefault: bool) -> Tuple[int, int, int, int]:
+    import logging
+    from csvpath.util.printer import StdOutPrinter, LogPrinter
 
     StubReader.RECORDS = recs_of(False, False, False)
     with NoTracing():
@@ -196,11 +197,15 @@ def print_mode(nodefault: bool) -> Tuple[int, int, int]:
         for pr_ in p.printers:
             if isinstance(pr_, StdOutPrinter):
                 pr_.print = lambda s: None  # keep the harness output quiet
+        lg = logging.getLogger("verif-null")
+        lg.disabled = True
+        p.add_printer(LogPrinter(lg))
         cap = CapPrinter()
         p.add_printer(cap)
         comment = "~ print-mode: no-default ~ " if nodefault else "~ print-mode: default ~ "
         p.parse(comment + '$SYM[*][ print("x") ]')
     p.fast_forward()
-    std = len([x for x in p.printers if isinstance(x, StdOutPrinter)])
+    std = len([x for x in p.printers if type(x) is StdOutPrinter])
+    logs = len([x for x in p.printers if isinstance(x, LogPrinter)])
     caps = len([x for x in p.printers if isinstance(x, CapPrinter)])
-    return (std, caps, len(cap.lines))
+    return (std, caps, len(cap.lines), logs)
